@@ -124,7 +124,7 @@ impl PrometheusBuilder {
         // anything else is rejected with the documented error
         !(is_ip_text(text_of(&address)) || is_cidr_text(text_of(&address))) ==>
             r is Err && r->Err_0 is InvalidAllowlistAddress,
-//@BEFORE 1 IpNet::from_str(
+//@BODYSTART
         let mut this = self;
 //@END
 }
